@@ -1,0 +1,26 @@
+// Copyright 2019 The Scriggo Authors. All rights reserved.
+// Use of this source code is governed by a BSD-style
+// license that can be found in the LICENSE file.
+
+//go:build !verif
+
+package runtime
+
+import "reflect"
+
+// Without the verif build tag the simulation hooks are empty and are
+// inlined away.
+
+const simEnabled = false
+
+type simState struct{}
+
+func simBegin(vm *VM)                                          {}
+func simEnd(vm *VM)                                            {}
+func simInstr(vm *VM)                                          {}
+func simGo(vm, nvm *VM)                                        {}
+func simClose(vm *VM, ch reflect.Value)                        {}
+func simBeforeRecv(vm *VM, ch reflect.Value)                   {}
+func simBeforeSend(vm *VM, ch reflect.Value)                   {}
+func simBeforeSelect(vm *VM, cases []reflect.SelectCase)       {}
+func simAfterChanOp(vm *VM, cases []reflect.SelectCase, i int) {}
